@@ -107,7 +107,9 @@ func (k msgServer) ProcessUndPurchaseOrder(goCtx context.Context, msg *types.Msg
 
 	currentDecisions := purchaseOrder.Decisions
 	for _, d := range currentDecisions {
-		if msg.Signer == d.Signer {
+		// compare accounts, not spellings: bech32 also has an all-upper-case form of every address
+		decided, accErr := sdk.AccAddressFromBech32(d.Signer)
+		if msg.Signer == d.Signer || (accErr == nil && decided.Equals(signer)) {
 			return nil, sdkerrors.Wrapf(types.ErrSignerAlreadyMadeDecision, "signer %s already decided: %s", msg.Signer, d.Decision.String())
 		}
 	}
